@@ -80,7 +80,11 @@ type Scenario struct {
 }
 
 func a() *StructA { return &StructA{F: 41, Name: "x", In: Inner{N: 7}, Items: []int{1, 2}} }
-func b() *StructB { return &StructB{V: 1.5, Tags: map[string]string{"k": "v"}} }
+
+// a2 is a second, distinguishable receiver of the same type (a mix-up of receivers or arguments
+// between concurrent calls changes the results).
+func a2() *StructA { return &StructA{F: 1041, Name: "y", In: Inner{N: 70}, Items: []int{10, 20}} }
+func b() *StructB  { return &StructB{V: 1.5, Tags: map[string]string{"k": "v"}} }
 
 var codecSeq atomic.Int64
 
@@ -124,13 +128,20 @@ func Scenarios() []Scenario {
 		{Name: "proxy method calls on the same struct type", Make: func() []Body {
 			return []Body{
 				evalBody("s.Add(1)", risor.WithGlobal("s", a())),
-				evalBody("s.Label()", risor.WithGlobal("s", a())),
+				evalBody("s.Label()", risor.WithGlobal("s", a2())),
 			}
 		}},
 		{Name: "the same method on the same struct type twice", Make: func() []Body {
 			return []Body{
 				evalBody("s.Add(1)", risor.WithGlobal("s", a())),
-				evalBody("s.Add(2)", risor.WithGlobal("s", a())),
+				evalBody("s.Add(200)", risor.WithGlobal("s", a2())),
+			}
+		}},
+		{Name: "the same two-argument-free method on three receivers of one type", Make: func() []Body {
+			return []Body{
+				evalBody("[s.Add(1), s.Sum([1, 2]), s.Label()]", risor.WithGlobal("s", a())),
+				evalBody("[s.Add(200), s.Sum([10, 20]), s.Label()]", risor.WithGlobal("s", a2())),
+				evalBody("[s.Add(3000), s.Sum([100]), s.Label()]", risor.WithGlobal("s", &StructA{F: 5, Name: "z"})),
 			}
 		}},
 		{Name: "methods with an int parameter on two struct types", Make: func() []Body {
@@ -148,7 +159,7 @@ func Scenarios() []Scenario {
 		{Name: "method taking a slice vs method returning a struct", Make: func() []Body {
 			return []Body{
 				evalBody("s.Sum([1, 2, 3])", risor.WithGlobal("s", a())),
-				evalBody("s.Inner().N", risor.WithGlobal("s", a())),
+				evalBody("s.Inner().N", risor.WithGlobal("s", a2())),
 			}
 		}},
 		{Name: "three evaluations: field, method, method with proxy argument", Make: func() []Body {
